@@ -252,6 +252,22 @@ static void run_cxx(Ctx &c, int fr) {
     c.loghex("message", msg.data(), msg.size());
     std::vector<size_t> sp = splits(c, msg.size());
     size_t off = 0, i = 0;
+    // a message that is started and then discarded (push(1, NULL): "delete the unfinished message") leaves the finished
+    // frames alone and the next message starts cleanly. Decided by the message itself, no draw.
+    if (fr != FCommand && msg.size() >= 2 && msg.size() % 5 == 2) {
+      size_t before = arr._state.done, glen = std::min<size_t>(msg.size() - 1, 300), first = glen / 2 ? glen / 2 : 1;
+      ssize_t r = arr.push(first, msg.data());
+      VP_CHECK(c, r == (ssize_t)first, "push-refused", "%s: encode_array::push(%zu) returned %zd", kName[fr], first, r);
+      if (glen > first) { r = arr.push(glen - first, msg.data() + first); VP_CHECK(c, r == (ssize_t)(glen - first), "push-refused", "%s: encode_array::push(%zu) returned %zd", kName[fr], glen - first, r); }
+      // (closed blocks of the unfinished message count as finished until the discard takes them back: no look() here)
+      r = arr.push(1, 0);
+      c.logf("  discard of %zu unfinished bytes = %zd", glen, r);
+      VP_CHECK(c, r >= 0 && arr._state.scratch == 0 && arr._state.done == before, "cxx-discard", "%s: discarding an unfinished message of %zu bytes returned %zd, finished bytes %zu -> %zu, open %zu",
+               kName[fr], glen, r, before, arr._state.done, arr._state.scratch);
+      look("discard");
+      c.label("cxx:discard-unfinished");
+      nt = true;
+    }
     size_t pieces = c.weighted({2, 1, 1}) == 0 ? 0 : c.range(0, sp.size());  // leading splits pushed one by one, the rest as one fragmented message
     for (; i < pieces; i++) {
       ssize_t r = arr.push(sp[i], msg.data() + off);
@@ -404,7 +420,7 @@ static Target t = {
     "C01",
     "random: framing (5) x entry point (encoder fn on exact-size window with drawn growth schedule | mpt_array_push behind 0-2 earlier frames | "
     "C++ encode_array: 1-4 messages handed over in pieces and/or as a fragmented message incl. empty parts, with finished bytes taken out in drawn portions by data()/shift(n), "
-    "the live part moved to the front by shift(), over-long shifts refused; all bytes taken out must be the frames in order) x "
+    "the live part moved to the front by shift(), over-long shifts refused, unfinished messages discarded by push(1, NULL); all bytes taken out must be the frames in order) x "
     "run-structured message (non-zero runs near 30/31/222/223/254/255, zero runs, bytes >= 0xDE) x push splits; decode in place behind a scratch prefix, "
     "segmented and over 1-2 iovecs. exhaustive: all messages of length <= 4 over {00,01,02,DE,DF,E0,E1,FE,FF} x 5 framings x 2 entries x 3 split modes x 2 capacity modes. "
     "non-trivial: message crosses a block boundary, has a zero pair, ends in a tail-inline candidate, or the encoder had to be retried after MissingBuffer "
